@@ -77,7 +77,8 @@ fn report_failure(args: &Args, rep: &mut Report, ast: &OpeningHoursExpression, h
 /// at a time. `text` is generated from (K, variant), so a replay is self-contained.
 pub fn many_rules_text(k: usize, variant: u64) -> String {
     let wds = ["Mo", "Tu", "We", "Th", "Fr", "Sa", "Su"];
-    let sep = |i: usize| match variant {
+    // variant = 3 * (separator pattern) + (kind of the late rule)
+    let sep = |i: usize| match variant / 3 {
         0 => ", ",
         1 => " ; ",
         _ => [", ", " ; ", ", "][i % 3],
@@ -90,7 +91,7 @@ pub fn many_rules_text(k: usize, variant: u64) -> String {
         }
         text += &format!("{} {} {:02}:{:02}-{:02}:{:02}", 1900 + i, wds[i % 7], m / 60, m % 60, (m + 3) / 60, (m + 3) % 60);
     }
-    text + ["; Mo 23:00-23:30 unknown", ", Mo-We 23:00-23:30 unknown", " || Tu 23:10-23:20 unknown"][(variant % 3) as usize]
+    text + [", Mo 23:00-23:30 unknown", "; Mo-We 23:00-23:30 unknown", " || Tu 23:10-23:20 unknown"][(variant % 3) as usize]
 }
 
 pub fn check_many_rules(k: usize, variant: u64) -> Result<usize, String> {
@@ -134,11 +135,11 @@ fn many_rules(args: &Args, rep: &mut Report) {
     }
     let mut idx = 0u64;
     for k in ks {
-        for variant in 0..3u64 {
+        for variant in 0..9u64 {
             // rules joined by ';' make the paving grow with every rule (7 s at 513 rules, 46 s at 1025,
             // 3 min at 2049, 12 min at 4097): those variants stop at 257 rules in the quick tier and at
             // 2049 in the thorough one; the all-additional variant climbs the whole ladder
-            if variant != 0 && k > if args.thorough() { 2049 } else { 257 } {
+            if variant >= 3 && k > if args.thorough() { 2049 } else { 257 } {
                 continue;
             }
             idx += 1;
